@@ -32,4 +32,19 @@ PROPS = {
         "level_note": "Partial: camelcase/snakecase/kebabcase, matchString, readFile/getenv/expandEnv, ceil/floor/round, randInt are not modelled (implementation-side totality check only). Unicode case tables are a parameter of the theorems and a generated table in the driver. Trusted: Lean kernel, the extractor (verifx), the Go harness and the Lean JSON driver.",
         "technique": "Lean 4 proof (induction over byte strings / argument lists; decide over a table regenerated from funcmap.go) + differential correspondence through text/template",
     },
+    "C08": {
+        "needs": [],
+        "extract": True,
+        "harness": "H-config: config.NewRootConfig/Initialize/GetInterfaceConfig in-process on generated trees vs Mockery.Config.initTree over the regenerated field table",
+        "rule": "random configuration trees (1-3 packages incl. null ones, 0-3 listed interfaces incl. null ones, 0-3 configs entries) in which every parameter is set at each level with probability 0.15/0.35/0.6 using pairwise distinct marker values (explicit \"\" and false included), nested template-data with leaf/map conflicts, replace-type, exclude-subpkg-regex; a quarter of the cases add MOCKERY_* variables (incl. ill-typed ones), a fifth a --log-level flag; each package is also queried for an unlisted interface; a case is non-trivial iff distinct and some parameter is set at two or more levels of one chain",
+        "trusted": COMMON_TRUST + [
+            "regenerated: Generated/ConfigFields.lean (fields, koanf keys, kinds of config.Config; the defaults literal of NewDefaultKoanf) by harness/verifx (go/ast) on every run",
+            "modelled, not verified: koanf layering and strict mapstructure decoding (Config/Sources.lean), yaml.v3 decoding of the file, Go map iteration (model: association lists, value semantics - aliasing in the real code surfaces as a correspondence difference)",
+            "recursive-package injection is modelled under C07, the level each consumer in RootApp.Run reads under the consumer table (see level_note)",
+        ],
+        "assumptions": ["configuration keys are unique per map (YAML/Go maps)"],
+        "level_text": "Theorems for all configuration trees: the effective value of every whole-valued parameter at a configs entry / interface / unlisted interface is the first set value along entry -> interface config -> package config -> top level (over the field table regenerated from config.go: no field kind is skipped); template-data is merged key-wise with the same precedence at every key path (specific leaf wins, missing key inherited, nothing invented); packages and interfaces do not influence their siblings; flags > file > environment > defaults. Tied to the real loader by an in-process differential run.",
+        "level_note": "Partial: which level each consumer in RootApp.Run reads (template, schema settings, formatter, force-file-write) is not covered by these theorems; the unchanged tree reads formatter from the top level and template/template-schema/require-template-schema-exists/force-file-write from the package level (known findings C08-K1..K4, replayed through the CLI). koanf/mapstructure/yaml.v3 are modelled, not verified.",
+        "technique": "Lean 4 proof (refinement to first-set-value over a field table regenerated from config.go; induction over nested maps) + differential correspondence against config.NewRootConfig",
+    },
 }
